@@ -91,6 +91,24 @@ class Setup:
     def obj(self, cls, **fields):
         return Obj(cls, fields)
 
+    def new(self, cls, *args, **kwargs):
+        """An instance of a repository class AS ITS REAL CONSTRUCTOR BUILDS IT: `cls.__init__` is interpreted from the repository
+        (re-read on every run) on the given symbolic arguments, so the object carries every field the constructor sets -- also
+        one added by a change -- with the value the constructor computes.  Branches inside the constructor split the proof
+        paths like any branch of the carrier; arguments on which the constructor raises (an exception, or a failed `safety`
+        condition such as an index out of bounds) describe no object: such a path is dropped / the condition is assumed.
+        Obligations of any other kind (frame writes ...) stay obligations of the carrier being verified.
+        Everything the constructor allocates exists before the carrier is entered (it is part of `entry_uids`)."""
+        eng = self.eng
+        n0 = len(eng.obligs)
+        try:
+            o = eng.instantiate(cls, list(args), dict(kwargs))
+        except ProgExc:
+            raise Infeasible()
+        finally:
+            eng.obligs[n0:] = [ob for ob in eng.obligs[n0:] if ob.kind != "safety"]
+        return o
+
     def opaque(self, proto, name="o"):
         return Opaque(z3.Const(fresh_name(name), z3.IntSort()), proto)
 
@@ -163,6 +181,11 @@ class Verifier(Interp):
             lab, text = split_label(cond, exc)
             cv = eval_clause(self, text, vars, func.globs, old_vars=old, extra=self.spec_extra)
             if self.branch(cv):
+                # options["raises_ensures"] = {ExcName: [clauses]}: EXCEPTIONAL postconditions (state in which the callee raises), proved on
+                # the carrier's own raising paths (obligations <fn>/exc/<Name>/post/<label>) and assumed here before the exception propagates
+                for j, xc in enumerate((c.options.get("raises_ensures") or {}).get(exc, [])):
+                    xlab, xtext = split_label(xc, f"xpost{j}")
+                    self.assume(eval_clause(self, xtext, vars, func.globs, old_vars=old, extra=self.spec_extra))
                 raise ProgExc(_exc_class(exc))
         res = self.make_result(c, fr)
         vars["result"] = res
@@ -259,6 +282,12 @@ class Verifier(Interp):
                     lab, text = split_label(cond, name)
                     v = eval_clause(self, text, self.top_old, globs, old_vars=self.top_old, extra=self.spec_extra)
                     self.prove(f"{fn_label}/exc/{name}-only-when-allowed", v, "exception")
+                    xvars = dict(fr.vars)
+                    for k0 in params:
+                        xvars.setdefault(k0, params[k0])
+                    for j, xc in enumerate((c.options.get("raises_ensures") or {}).get(name, [])):  # exceptional postconditions
+                        xlab, xtext = split_label(xc, f"xpost{j}")
+                        self.prove(f"{fn_label}/exc/{name}/post/{xlab}", eval_clause(self, xtext, xvars, globs, old_vars=self.top_old, extra=self.spec_extra), "postcondition")
                 return
             self.exits += 1
             post_vars = dict(fr.vars)
@@ -491,7 +520,8 @@ def discharge_all(obligs, timeout_ms, workers=16, cover_timeout_ms=3000):
         if ob.kind == "cover":
             jobs.append(((ob.name, smt.to_smt2(ob.hyps, ob.goal), -cover_timeout_ms), ob))
             continue
-        jobs.append(((ob.name, smt.to_smt2(ob.hyps, ob.goal), timeout_ms), ob))
+        first = ("cvc5",) if "[cvc5-first]" in (ob.note or "") else ()
+        jobs.append(((ob.name, smt.to_smt2(ob.hyps, ob.goal), timeout_ms) + first, ob))
     results = {}
     for k, v in trivial.items():
         results.setdefault(k, []).extend(v)
